@@ -105,6 +105,29 @@ fn show_ids(v: &[String]) -> String {
     format!("[{}]", v.iter().map(|s| short(s)).collect::<Vec<_>>().join(","))
 }
 
+/// A fresh cache of either kind over a borrowed source.  (`AssetCache::without_hot_reloading` costs
+/// ~50 us of system calls: `AssetMap::new` asks `available_parallelism()`; the Arc<T> runs of parts
+/// B and C therefore use the `LocalAssetCache`.)
+enum FreshCache<'s> {
+    Shared(AssetCache<&'s dyn Source>),
+    Local(LocalAssetCache<&'s dyn Source>),
+}
+impl<'s> FreshCache<'s> {
+    fn new(src: &'s dyn Source, local: bool) -> Self {
+        if local {
+            FreshCache::Local(LocalAssetCache::with_source(src))
+        } else {
+            FreshCache::Shared(AssetCache::without_hot_reloading(src))
+        }
+    }
+    fn any(&self) -> AnyCache<'_> {
+        match self {
+            FreshCache::Shared(c) => c.as_any_cache(),
+            FreshCache::Local(c) => c.as_any_cache(),
+        }
+    }
+}
+
 struct Cx<'r, 'a> {
     v: &'r Variant,
     o: &'r Oracle,
@@ -281,14 +304,15 @@ fn subsets_upto3(n: usize) -> Vec<Vec<usize>> {
 }
 
 /// Part B: `iter_cached` after pre-loading every subset of <= 3 ids yields exactly that subset.
-fn part_b<T: Probe>(src: &dyn Source, cx: &mut Cx, bad: &BTreeSet<String>) {
+fn part_b<T: Probe>(src: &dyn Source, cx: &mut Cx, bad: &BTreeSet<String>, local: bool) {
     let sk = cx.v.srckind();
     let dirs: Vec<String> = cx.o.dirs.keys().filter(|d| !bad.contains(*d)).cloned().collect();
     for d in &dirs {
         let rec = cx.o.rec_ids(d, T::EXTS, None);
         let own = cx.o.dir_ids(d, T::EXTS);
         for sub in subsets_upto3(rec.len()) {
-            let cache = AssetCache::without_hot_reloading(src);
+            let fresh = FreshCache::new(src, local);
+            let cache = fresh.any();
             let pre: Vec<&String> = sub.iter().map(|&i| &rec[i]).collect();
             let mut ok = true;
             for id in &pre {
@@ -304,7 +328,7 @@ fn part_b<T: Probe>(src: &dyn Source, cx: &mut Cx, bad: &BTreeSet<String>) {
             cx.rep.res.transitions += 2;
             let q = format!(".load_dir({}).iter_cached() after loading {}", sid(d), show_ids(&pre.iter().map(|s| s.to_string()).collect::<Vec<_>>()));
             if let Ok(h) = cache.load_dir::<T>(d) {
-                let got: Vec<String> = h.read().iter_cached(&cache).map(|h| h.id().to_string()).collect();
+                let got: Vec<String> = h.read().iter_cached(cache).map(|h| h.id().to_string()).collect();
                 let want: Vec<String> = own.iter().filter(|i| pre.contains(i)).cloned().collect();
                 if got != want {
                     cx.viol::<T>("iter-cached", &sk, "iter_cached", &q, &format!("yields {}", show_ids(&got)), format!("want {}", show_ids(&want)));
@@ -312,7 +336,7 @@ fn part_b<T: Probe>(src: &dyn Source, cx: &mut Cx, bad: &BTreeSet<String>) {
             }
             let q = format!(".load_rec_dir({}).iter_cached() after loading {}", sid(d), show_ids(&pre.iter().map(|s| s.to_string()).collect::<Vec<_>>()));
             if let Ok(h) = cache.load_rec_dir::<T>(d) {
-                let mut got: Vec<String> = h.read().iter_cached(&cache).map(|h| h.id().to_string()).collect();
+                let mut got: Vec<String> = h.read().iter_cached(cache).map(|h| h.id().to_string()).collect();
                 got.sort();
                 let want: Vec<String> = pre.iter().map(|s| s.to_string()).collect();
                 if got != want {
@@ -325,12 +349,13 @@ fn part_b<T: Probe>(src: &dyn Source, cx: &mut Cx, bad: &BTreeSet<String>) {
 
 /// Part C: a source failing `read_dir` of one directory: that sub-tree is missing from
 /// `load_rec_dir` of every ancestor, siblings intact; failing the loaded directory itself => Err.
-fn part_c<T: Probe>(src: &dyn Source, cx: &mut Cx, bad: &BTreeSet<String>) {
+fn part_c<T: Probe>(src: &dyn Source, cx: &mut Cx, bad: &BTreeSet<String>, local: bool) {
     let sk = cx.v.srckind();
     let dirs: Vec<String> = cx.o.dirs.keys().filter(|d| !bad.contains(*d)).cloned().collect();
     for f in &dirs {
         let faulty = Faulty { inner: src, fail: f };
-        let cache = AssetCache::without_hot_reloading(&faulty);
+        let fresh = FreshCache::new(&faulty, local);
+        let cache = fresh.any();
         for d in &dirs {
             cx.rep.res.transitions += 1;
             let q = format!(".load_rec_dir({}) with read_dir({}) failing", sid(d), sid(f));
@@ -364,7 +389,8 @@ fn part_c<T: Probe>(src: &dyn Source, cx: &mut Cx, bad: &BTreeSet<String>) {
     }
 }
 
-fn one_type<T: Probe>(src: &dyn Source, v: &Variant, o: &Oracle, qdirs: &[String], rep: &mut Rep, local: bool) -> u64 {
+/// `local`: also run part A on a LocalAssetCache; `bc_local`: parts B and C on LocalAssetCaches.
+fn one_type<T: Probe>(src: &dyn Source, v: &Variant, o: &Oracle, qdirs: &[String], rep: &mut Rep, local: bool, bc_local: bool) -> u64 {
     let mut n = 1;
     let bad = {
         let cache = AssetCache::without_hot_reloading(src);
@@ -377,9 +403,9 @@ fn one_type<T: Probe>(src: &dyn Source, v: &Variant, o: &Oracle, qdirs: &[String
         part_a::<T>(cache.as_any_cache(), &mut cx, qdirs);
         n += 1;
     }
-    let mut cx = Cx { v, o, rep, cache_name: "AssetCache" };
-    part_b::<T>(src, &mut cx, &bad);
-    part_c::<T>(src, &mut cx, &bad);
+    let mut cx = Cx { v, o, rep, cache_name: if bc_local { "LocalAssetCache" } else { "AssetCache" } };
+    part_b::<T>(src, &mut cx, &bad, bc_local);
+    part_c::<T>(src, &mut cx, &bad, bc_local);
     n
 }
 
@@ -408,16 +434,16 @@ pub fn run_case(case: &Case, res: &mut SubResult) -> Result<(), String> {
     let mut evals = 0u64;
     for_each_source(&t, &sc, Mode::Reduced, &mut st, &mut |src, v, _| {
         let o = if v.nodirs() { &pruned } else { &full };
-        evals += one_type::<TX>(src, v, o, &qdirs, &mut rep, false);
-        evals += one_type::<TXY>(src, v, o, &qdirs, &mut rep, true);
-        evals += one_type::<TE>(src, v, o, &qdirs, &mut rep, false);
-        evals += one_type::<TXE>(src, v, o, &qdirs, &mut rep, false);
-        evals += one_type::<TN>(src, v, o, &qdirs, &mut rep, false);
-        evals += one_type::<Arc<TX>>(src, v, o, &qdirs, &mut rep, false);
-        evals += one_type::<Arc<TXY>>(src, v, o, &qdirs, &mut rep, false);
-        evals += one_type::<Arc<TE>>(src, v, o, &qdirs, &mut rep, false);
-        evals += one_type::<Arc<TXE>>(src, v, o, &qdirs, &mut rep, false);
-        evals += one_type::<Arc<TN>>(src, v, o, &qdirs, &mut rep, false);
+        evals += one_type::<TX>(src, v, o, &qdirs, &mut rep, false, false);
+        evals += one_type::<TXY>(src, v, o, &qdirs, &mut rep, true, false);
+        evals += one_type::<TE>(src, v, o, &qdirs, &mut rep, false, false);
+        evals += one_type::<TXE>(src, v, o, &qdirs, &mut rep, false, false);
+        evals += one_type::<TN>(src, v, o, &qdirs, &mut rep, false, false);
+        evals += one_type::<Arc<TX>>(src, v, o, &qdirs, &mut rep, false, true);
+        evals += one_type::<Arc<TXY>>(src, v, o, &qdirs, &mut rep, false, true);
+        evals += one_type::<Arc<TE>>(src, v, o, &qdirs, &mut rep, false, true);
+        evals += one_type::<Arc<TXE>>(src, v, o, &qdirs, &mut rep, false, true);
+        evals += one_type::<Arc<TN>>(src, v, o, &qdirs, &mut rep, false, true);
     })?;
     for (v, e) in &st.open_failures {
         rep.viol("open-failed", &v.srckind(), "open", v, "open", &format!("Err({e})"), String::new);
